@@ -305,6 +305,9 @@ pub fn cut_str<W: Write>(
     let mut delimiter = &opt.delimiter;
     let should_compress_delimiter = opt.compress_delimiter
         && (opt.bounds_type == BoundsType::Fields || opt.bounds_type == BoundsType::Lines);
+    // Compressing with a regex rewrites the delimiters into their replacement
+    #[allow(unused_mut)]
+    let mut delimiter_already_replaced = false;
 
     if should_compress_delimiter {
         if opt.regex_bag.is_some() && cfg!(feature = "regex") {
@@ -318,6 +321,7 @@ pub fn cut_str<W: Write>(
                 );
                 line = &line_holder;
                 should_build_ranges_using_regex = false;
+                delimiter_already_replaced = true;
             }
         } else {
             compress_delimiter(line, &opt.delimiter, compressed_line_buf);
@@ -415,7 +419,11 @@ pub fn cut_str<W: Write>(
             let r = r.unwrap();
             let idx_start = fields[r.start].start;
             let idx_end = fields[r.end - 1].end;
-            maybe_replace_delimiter(&line[idx_start..idx_end], opt)
+            if delimiter_already_replaced {
+                std::borrow::Cow::Borrowed(&line[idx_start..idx_end])
+            } else {
+                maybe_replace_delimiter(&line[idx_start..idx_end], opt)
+            }
         } else if b.fallback_oob.is_some() {
             // fallbacks are printed verbatim
             std::borrow::Cow::Borrowed(b.fallback_oob.as_ref().unwrap().as_slice())
